@@ -14,6 +14,7 @@ import copy
 import itertools
 import json
 import os
+import re
 import shutil
 
 import yaml
@@ -674,6 +675,13 @@ def run(ctx):
             gen = {"fortran_generic": [{"decl": "(float scale)"}, {"decl": "(double scale)"}]}
             gi, gp = inline[:-1] + ", double scale)", plain[:-1] + ", double scale)"
             add(("attribute", site + "+fortran_generic", gi), attr_desc(gi, dict(gen)), attr_desc(gp, dict(extra, **gen)))
+            # generic declarations that restate the attributed argument itself (generic.yaml: '(int *values)', '(int *values +rank(1))'):
+            # what they leave unsaid is unsaid under both spellings
+            m1 = re.match(r"void f\((int|double) \*(\w+)\b", plain)
+            if m1 and "+rank" not in inline and "cdesc" not in inline and "+dimension" not in inline:
+                gen2 = {"fortran_generic": [{"decl": "(%s *%s)" % (m1.group(1), m1.group(2)), "function_suffix": "_scalar"},
+                                            {"decl": "(%s *%s +rank(1))" % (m1.group(1), m1.group(2)), "function_suffix": "_array"}]}
+                add(("attribute", site + "+fortran_generic-restated", inline), attr_desc(inline, dict(gen2)), attr_desc(plain, dict(extra, **gen2)))
             di, dp = inline[:-1] + ", int k = 1)", plain[:-1] + ", int k = 1)"
             add(("attribute", site + "+default", di), attr_desc(di), attr_desc(dp, extra))
     # (3)
